@@ -13,6 +13,7 @@ import (
 	commonmodels "github.com/lindb/common/models"
 	protoMetricsV1 "github.com/lindb/common/proto/gen/v1/linmetrics"
 
+	"github.com/lindb/lindb/index"
 	"github.com/lindb/lindb/kv"
 	"github.com/lindb/lindb/models"
 	"github.com/lindb/lindb/tsdb"
@@ -107,6 +108,9 @@ func (H) Gen(prop string, rng *rand.Rand, tier string) *core.Plan {
 			p.Ops = append(p.Ops, core.Op{K: "compact"})
 		case r < 64 && prop == "C11":
 			p.Ops = append(p.Ops, core.Op{K: "restart"})
+		case r < 67:
+			// the next new series get ids beyond the next roaring container boundary (65536 ids per container)
+			p.Ops = append(p.Ops, core.Op{K: "jump", A: int64([]int{65530, 65536, 70000}[rng.Intn(3)])})
 		case r < 72:
 			p.Ops = append(p.Ops, core.Op{K: "qflush", S: fmt.Sprint(rng.Intn(1 << 30))})
 		default:
@@ -127,6 +131,7 @@ type run struct {
 	points  []point
 	flushes int
 	epoch   int
+	seqBase uint32 // series id sequence set by the last jump
 
 	pendingFirstLast func() // first C11/first-last-order observation of the run (known finding)
 }
@@ -173,6 +178,8 @@ func (H) Run(c *core.RunCtx) {
 			r.flush()
 		case "compact":
 			r.compact()
+		case "jump":
+			r.jump(op.A)
 		case "restart":
 			r.epoch++
 			r.n.Engine.Close()
@@ -274,6 +281,29 @@ func (r *run) flush() {
 			}
 		}
 	}
+}
+
+// jump moves the series id sequence of the metric forward in every shard, so that series created from now
+// on live in a later roaring container (series ids are dense otherwise and a run creates a dozen).
+func (r *run) jump(by int64) {
+	db, ok := r.n.Engine.GetDatabase(r.db)
+	if !ok {
+		return
+	}
+	mid, err := db.MetaDB().GetMetricID("default-ns", "m")
+	if err != nil {
+		return // nothing written yet
+	}
+	if r.seqBase+uint32(by) > 190000 {
+		return // the default limit is 200000 series per metric: ids beyond it are rejected (too many series)
+	}
+	r.seqBase += uint32(by)
+	for sh := 0; sh < r.shards; sh++ {
+		if shard, ok := db.GetShard(models.ShardID(sh)); ok {
+			index.VerifSetSeriesSequence(shard.IndexDB(), mid, r.seqBase)
+		}
+	}
+	r.c.Sim.Probe("series-sequence-jump")
 }
 
 func (r *run) compact() {
@@ -430,7 +460,7 @@ func genAtom(rng *rand.Rand) cond {
 		v := pickv()
 		rs := []rune(v) // whole runes: the statement must stay valid UTF-8
 		first, last := string(rs[:1]), string(rs[len(rs)-1:])
-		pats := []string{first + "*", "*" + last, "*" + first + "*", v}
+		pats := []string{first + "*", "*" + last, "*" + first + "*", v, "*"}
 		return atom{key, "like", []string{pats[rng.Intn(len(pats))]}}
 	case 5:
 		v := pickv()
